@@ -270,6 +270,18 @@ func CheckC13(e *Env) (int, error) {
 			plans = append(plans, &histPlan{Source: "hook", Hold: true, Ops: []plan.Op{probes[a][0], probes[b][0], lateB, probes[a][0], probes[a][1], late, probes[b][2]}})
 		}
 	}
+	// (1d) a returned seed / mnemonic held across a collection cycle and further calls
+	for _, a := range AllLangs {
+		sd := plan.Op{K: "seed", Lang: a}
+		pv := probes[a][0]
+		setM(&sd, pv.Mnemonic())
+		setP(&sd, "TREZOR")
+		sd.GC = true
+		g2 := probes[a][2]
+		g2.GC = true
+		kindOf[len(plans)] = "held-across-gc"
+		plans = append(plans, &histPlan{Source: "hook", Hold: true, Ops: []plan.Op{sd, g2, probes[a][0], probes[a][2], sd}})
+	}
 	pairs := len(plans)
 	if err := solo.All(pool); err != nil {
 		return 2, err
@@ -370,6 +382,11 @@ func CheckC13(e *Env) (int, error) {
 				ops[r.Range(1, len(ops)-1)].J = JumpVals[r.Intn(len(JumpVals))]
 			}
 		}
+		if r.Intn(4) == 0 { // memory pressure: a GC cycle (finalizers get time to run) right after some calls
+			for j := 0; j < r.Range(1, 3); j++ {
+				ops[r.Intn(len(ops))].GC = true
+			}
+		}
 		for j := range ops { // the simulated caller's buffer habits are drawn per history
 			if ops[j].K == "ent" && !ops[j].Nil {
 				ops[j].Cap = []int{0, 1, 16, 64}[r.Intn(4)]
@@ -432,6 +449,7 @@ func CheckC13(e *Env) (int, error) {
 	probesHit := map[string]int{}
 	totalOps, scribbles, reinspects, devReads := 0, 0, 0, 0
 	idleN, idleMs := 0, int64(0)
+	forcedGC := 0
 	fired := map[string]int{}
 	var samples []interface{}
 	firstPairs := map[[2]int]bool{}
@@ -458,6 +476,7 @@ func CheckC13(e *Env) (int, error) {
 		}
 		if res != nil {
 			od.Add(i, strDigest(mustJSON(res.Outcomes)+mustJSON(res.Altered)))
+			forcedGC += res.ForcedGC
 			scribbles += res.Scribbles
 			reinspects += res.Reinspects
 			for _, rr := range res.Reads {
@@ -551,6 +570,7 @@ func CheckC13(e *Env) (int, error) {
 		"sim_steps_total":                        totalOps,
 		"sim_time_note":                          "the unchanged tree reads no clock, so simulated time is counted in history operations; a tree that imports \"time\" gets Now/Since/Until from the clock seam, which the simulator moves forward in jumps (idle periods of 50 ms to 400 d between calls)",
 		"clock_seam_files":                       e.ClockFiles("go"),
+		"forced_gc_cycles":                       forcedGC,
 		"simulated_idle_periods":                 idleN,
 		"simulated_idle_ms_total":                idleMs,
 		"solo_oracle_processes":                  solo.Procs,
